@@ -115,6 +115,7 @@ def run(ctx):
         sig_mark = len(keys.oracle)
         forced_curve = False
         unvalidated_pending = [False]
+        forced_next = []
         for di in range(n_deliv):
             choice = rng.random()
             kind = None
@@ -122,7 +123,20 @@ def run(ctx):
             known = set(rn.cm.coinstate.block_by_hash)          # what the node holds now (a roll-back may have dropped blocks)
             forgotten = [b for b in tree.blocks if b.hash() not in known and b.previous_block_hash in known]
             irt = 0
-            if choice < 0.08 and tree.cs.current_chain_hash in known:
+            if di == 5 or (di == 25 and si % 2 == 0):
+                # a reorganisation by overtaking, once or twice per scenario: a competitor of the head (same height, not the head)
+                # and then a child of the competitor, which becomes the new head although its parent never was the head
+                head_now = rn.cm.coinstate.current_chain_hash
+                hb_now = rn.cm.coinstate.block_by_hash[head_now]
+                if hb_now.height > 0 and head_now == tree.cs.current_chain_hash and hb_now.previous_block_hash in known:
+                    sib = tree.extend(hb_now.previous_block_hash, n_tx=0)
+                    forced_next.append(("valid_competitor_of_head", sib))
+                    forced_next.append(("valid_overtaking_child", tree.extend(sib.hash(), n_tx=0)))
+            if forced_next:
+                kind, blk = forced_next.pop(0)
+                res.count("forced:" + kind)
+                kind = "valid"
+            elif choice < 0.08 and tree.cs.current_chain_hash in known:
                 # a valid block that arrives as the answer to the node's own request: adopted without full validation
                 blk = tree.extend(tree.cs.current_chain_hash)
                 kind, irt = "reply_valid", 41
